@@ -127,21 +127,22 @@ type agentState struct {
 }
 
 type session struct {
-	cfg     sessCfg
-	st      store.Store
-	proxy   *depositProxy
-	bal     store.BalanceStore
-	pool    *pool.VipnodePool
-	pay     *payment.PaymentService
-	srv     *jsonrpc2.Server
-	agents  []*agentState
-	model   *poolModel
-	closeFn func()
-	dir     string
-	closed  bool
-	raw     store.Store // the driver itself (s.st may be the yielding wrapper)
-	ys      *yieldStore
-	feeLog  []feeEntry // inputs of WithdrawFee (pre-fee totals), in call order
+	cfg             sessCfg
+	st              store.Store
+	proxy           *depositProxy
+	bal             store.BalanceStore
+	pool            *pool.VipnodePool
+	pay             *payment.PaymentService
+	srv             *jsonrpc2.Server
+	agents          []*agentState
+	model           *poolModel
+	closeFn         func()
+	dir             string
+	handlerOverride jsonrpc2.Handler
+	closed          bool
+	raw             store.Store // the driver itself (s.st may be the yielding wrapper)
+	ys              *yieldStore
+	feeLog          []feeEntry // inputs of WithdrawFee (pre-fee totals), in call order
 
 	mu         sync.Mutex
 	settleLog  []settleCall
@@ -334,6 +335,13 @@ func (s *session) nonce(id string) int64 {
 	return n
 }
 
+// openConnWith is openConn with a different pool-side handler (e.g. a panic-recording wrapper around s.srv).
+func (s *session) openConnWith(i int, h jsonrpc2.Handler) *agentConn {
+	s.handlerOverride = h
+	defer func() { s.handlerOverride = nil }()
+	return s.openConn(i, "")
+}
+
 // openConn dials a new connection for agent i (not yet registered with the pool).
 func (s *session) openConn(i int, addr string) *agentConn {
 	a := s.agents[i]
@@ -354,7 +362,11 @@ func (s *session) openConn(i int, addr string) *agentConn {
 	if addr == "" {
 		addr = fmt.Sprintf("203.0.113.%d:%d", 10+i, 40000+id)
 	}
-	ac.c = dial(s.srv, ac.svc.handler(), addr, s.pool.CloseRemote)
+	var ph jsonrpc2.Handler = s.srv
+	if s.handlerOverride != nil {
+		ph = s.handlerOverride
+	}
+	ac.c = dial(ph, ac.svc.handler(), addr, s.pool.CloseRemote)
 	a.conns = append(a.conns, ac)
 	return ac
 }
